@@ -49,11 +49,14 @@ OWN = {  # parameters of the driver's own executions; must match spec/SchedTrace
 
 def _tier(tier):
     if tier == "quick":
-        return dict(mc=["Sched_%s_quick.cfg", "Sched_%s_quick2.cfg"], stop_after=150, leaves=200, extra_edges=100,
-                    sim=(40, 90), own_runs=40, par=4, workers=2, java="-Xmx2g -XX:ParallelGCThreads=2")
-    return dict(mc=["Sched_%s_thorough.cfg", "Sched_%s_thorough2.cfg", "Sched_%s_thorough3.cfg"], stop_after=1500,
-                leaves=4000, extra_edges=4000, sim=(1200, 90), own_runs=1500, par=3, workers=4,
-                java="-Xmx8g -XX:ParallelGCThreads=4")
+        return dict(mc=[c % r for c in ("Sched_%s_quick.cfg", "Sched_%s_quick2.cfg") for r in ROLES],
+                    big={"Sched_att_quick.cfg": 2, "Sched_prop_quick.cfg": 2}, workers=1, par=6,
+                    stop_after=150, leaves=200, extra_edges=100, sim=(40, 90), own_runs=40,
+                    java="-Xmx2g -XX:ParallelGCThreads=2")
+    return dict(mc=[c % r for c in ("Sched_%s_thorough2.cfg", "Sched_%s_thorough.cfg", "Sched_%s_thorough3.cfg") for r in ROLES
+                    if c % r != "Sched_sync_thorough2.cfg"] + ["Sched_att_spe6.cfg", "Sched_sync_spe6.cfg"],
+                big={}, workers=3, par=3, stop_after=1200, leaves=4000, extra_edges=4000, sim=(1200, 90), own_runs=1500,
+                java="-Xmx8g -XX:ParallelGCThreads=3")
 
 
 def _killed(r):
@@ -190,12 +193,12 @@ def run(tier, seed):
     os.makedirs(wd, exist_ok=True)
     rng = random.Random(seed)
     num, depth = T["sim"]
-    cfgs = [pat % role for pat in T["mc"] for role in ROLES]
+    cfgs = T["mc"]
 
     # all TLC work of the tier goes through one pool (at most par JVMs at a time), longest jobs first
     ex = concurrent.futures.ThreadPoolExecutor(max_workers=T["par"])
-    f_mc = [ex.submit(_tlc, "MCScheduler", c, workers=T["workers"], timeout=T["stop_after"] + 600, stop_after=T["stop_after"])
-            for c in cfgs]
+    f_mc = [ex.submit(_tlc, "MCScheduler", c, workers=T["big"].get(c, T["workers"]), timeout=T["stop_after"] + 600,
+                      stop_after=T["stop_after"]) for c in cfgs]
     f_own = [ex.submit(_own, drv, wd, role, seed, T["own_runs"]) for role in ROLES]
     f_sim = [ex.submit(_sim, role, num, depth, seed) for role in ROLES]
     f_cover = [ex.submit(_cover, role) for role in ROLES]
